@@ -99,5 +99,6 @@ pub fn streams() -> Vec<(&'static str, crate::StreamFn)> {
         ("lossy-parse", lossy_parse as crate::StreamFn),
         ("lossy-wf", lossy_parse as crate::StreamFn),
         ("lossy-rt", lossy_rt as crate::StreamFn),
+        ("lossy-rt-any", lossy_rt as crate::StreamFn),
     ]
 }
